@@ -515,6 +515,9 @@ impl<T: Send> Receiver<T> {
   /// - `Err(RecvErrorTimeout::Timeout)` if the timeout is reached.
   /// - `Err(RecvErrorTimeout::Disconnected)` if the channel is disconnected.
   pub fn recv_timeout(&self, timeout: std::time::Duration) -> Result<T, RecvErrorTimeout> {
+    if self.closed.load(Ordering::Relaxed) {
+      return Err(RecvErrorTimeout::Disconnected);
+    }
     sync_impl::recv_timeout_sync(self, timeout)
   }
 
@@ -685,7 +688,8 @@ impl<T: Send> AsyncSender<T> {
   /// This method returns a future that will complete once the value has been
   /// successfully sent, or when the channel is closed.
   pub fn send(&self, item: T) -> SendFuture<'_, T> {
-    async_impl::SendFuture::new(self, item)
+    let fut = async_impl::SendFuture::new(self, item);
+    if self.closed.load(Ordering::Relaxed) { fut.rejected() } else { fut }
   }
 
   /// Attempts to send a value into the channel without blocking (or awaiting).
@@ -703,14 +707,16 @@ impl<T: Send> AsyncSender<T> {
   /// If the future is dropped after partial progress, the unsent remainder is
   /// dropped; use [`send_batch_mut`](Self::send_batch_mut) for cancel safety.
   pub fn send_batch(&self, items: Vec<T>) -> SendBatchFuture<'_, T> {
-    async_impl::SendBatchFuture::new(self, items)
+    let fut = async_impl::SendBatchFuture::new(self, items);
+    if self.closed.load(Ordering::Relaxed) { fut.rejected() } else { fut }
   }
 
   /// Sends a batch asynchronously in place, draining sent items from the
   /// front of `items`. Cancel-safe: on drop or closure, unsent items -
   /// including a parked rendezvous payload - remain in `items`.
   pub fn send_batch_mut<'a>(&'a self, items: &'a mut Vec<T>) -> SendBatchMutFuture<'a, T> {
-    async_impl::SendBatchMutFuture::new(self, items)
+    let fut = async_impl::SendBatchMutFuture::new(self, items);
+    if self.closed.load(Ordering::Relaxed) { fut.rejected() } else { fut }
   }
 
   /// Attempts to send a batch without blocking. Same semantics as
@@ -877,7 +883,8 @@ impl<T: Send> AsyncReceiver<T> {
   /// This method returns a future that will complete when a value is received,
   /// or when the channel becomes disconnected.
   pub fn recv(&self) -> RecvFuture<'_, T> {
-    async_impl::RecvFuture::new(self)
+    let fut = async_impl::RecvFuture::new(self);
+    if self.closed.load(Ordering::Relaxed) { fut.rejected() } else { fut }
   }
 
   /// Attempts to receive a value from the channel without blocking (or awaiting).
@@ -891,7 +898,8 @@ impl<T: Send> AsyncReceiver<T> {
   /// Receives up to `max` items asynchronously. Resolves with between 1 and
   /// `max` items (FIFO order) once anything is available. Cancel-safe.
   pub fn recv_batch(&self, max: usize) -> RecvBatchFuture<'_, T> {
-    async_impl::RecvBatchFuture::new(self, max)
+    let fut = async_impl::RecvBatchFuture::new(self, max);
+    if self.closed.load(Ordering::Relaxed) { fut.rejected() } else { fut }
   }
 
   /// Receives up to `max` items asynchronously, appending them to the end of
@@ -901,7 +909,8 @@ impl<T: Send> AsyncReceiver<T> {
     out: &'a mut Vec<T>,
     max: usize,
   ) -> RecvBatchMutFuture<'a, T> {
-    async_impl::RecvBatchMutFuture::new(self, out, max)
+    let fut = async_impl::RecvBatchMutFuture::new(self, out, max);
+    if self.closed.load(Ordering::Relaxed) { fut.rejected() } else { fut }
   }
 
   /// Attempts to receive up to `max` items without blocking. Same semantics
